@@ -83,6 +83,7 @@ def run(p, cells, seed=0, enc=None, X=None, resets=(), bads=()):
         since = int(det.samples_since_reset)
         tested = since > p["burn"] and since % p["sub"] == 0
         b, br = {}, {}
+        newkeys = set()
         for r in RATES:
             b[r] = {"na": True, "lbw": "0", "ubw": "0", "lbd": "0", "ubd": "0"}
             br[r] = {k: ["0", "0"] for k in ("lbw", "ubw", "lbd", "ubd")}
@@ -91,7 +92,7 @@ def run(p, cells, seed=0, enc=None, X=None, resets=(), bads=()):
                 den = {"tpr": conf["tp"] + conf["fn"], "tnr": conf["tn"] + conf["fp"], "ppv": conf["fp"] + conf["tp"],
                        "npv": conf["tn"] + conf["fn"]}[r]
                 rate = numr / den
-                key = (round(rate, p["rv"]), den)
+                key = (float(np.round(np.float64(rate), p["rv"])), den)      # (numpy's rounding: the cache key of the arithmetic the rates are computed in)
                 try:
                     rec = det._bounds[key[0]][key[1]]     # optional private read
                     b[r] = {"na": False, "lbw": num(rec["lb_warn"]), "ubw": num(rec["ub_warn"]), "lbd": num(rec["lb_detect"]),
@@ -99,10 +100,12 @@ def run(p, cells, seed=0, enc=None, X=None, resets=(), bads=()):
                 except Exception:  # noqa
                     pass
                 if key not in seen:
-                    seen.add(key)
+                    newkeys.add(key)          # (marked as seen after the step: several rates of one step may share a key, each with its own raw
+                    #                            rate - the implementation simulates for whichever of them it comes to first)
                     for name, level, upper in (("lbw", p["wl"], False), ("ubw", p["wl"], True), ("lbd", p["dl"], False), ("ubd", p["dl"], True)):
                         lo, hi = bracket(rate, den, p["eta"], level, p["num_mc"], upper, seed + t)
                         br[r][name] = [num(lo), num(hi)]
+        seen |= newkeys
         e = {"op": "update", "yt": int(yt), "yp": int(yp), "b": b, "br": br, "total": int(det.total_samples), "since": since,
              "state": st(det.drift_state), "recs": recs(list(det.retraining_recs)), "nstates": len(det.all_drift_states),
              "laststate": st(det.all_drift_states[-1]), "rstat": ["NA"] * 4, "conf": [-1, -1, -1, -1]}
